@@ -37,6 +37,7 @@ class Sched(object):
         self.trace_root = instrument.ROOT
         self.npoints = 0
         self.deadlock = False
+        self.loc = {}             # thread -> lomond function it is currently executing (last statement start seen)
         self.occ = {}             # (thread, location) -> occurrences so far (names of the decision variables)
         self.nforced = 0
         self.stmt_lines = stmt_start_lines(self.trace_root)
@@ -124,6 +125,7 @@ class Sched(object):
                 # e.g. for the final CALL, is not a new point: that depends on how the expression was compiled)
                 if ln in self.stmt_lines.get(fn, ()) and last.get(id(frame)) != ln:
                     last[id(frame)] = ln
+                    self.loc[name] = '%s:%s' % (fn, frame.f_code.co_name)
                     self.point(name, '%s:%d' % (fn, ln))
             elif event == 'return':
                 last.pop(id(frame), None)
@@ -286,6 +288,15 @@ def make_ws(c, w, sched, compress_cfg=None):
     return ws, s, sock
 
 
+def _closer_class(loc):
+    """where is a thread that is executing a close: anywhere on the close() -> _send_close -> send -> write call chain
+    (the known window: Close written, flag not yet set) or somewhere else"""
+    if loc in ('websocket.py:close', 'websocket.py:_send_close', 'session.py:send', 'session.py:write', 'frame.py:build',
+               'frame.py:to_bytes', 'frame.py:__init__', 'frame.py:build_close_payload', 'mask.py:mask_payload', 'mask.py:<genexpr>'):
+        return 'inside close()'
+    return loc
+
+
 def named(fn, name):
     def wrapper():
         threading.current_thread().sched_name = name
@@ -305,6 +316,7 @@ def run_sched(c, P):
     in_close = {}
     sched.snapshot = lambda: dict(closing=ws.state.closing, closed=ws.state.closed,
                                   close_in_progress=any(in_close.values()),
+                                  closer_at=sorted(set(_closer_class(sched.loc.get(n, '?')) for n, v in in_close.items() if v)),
                                   close_on_wire=any(e[0] == 'write-part' and e[2] and isinstance(e[2][0], int) and e[2][0] & 15 == 8
                                                     for e in w.log))
     results = {}
@@ -321,13 +333,14 @@ def run_sched(c, P):
                     b = c.int('%s_t%d' % (name, i), 7)
                     pay = [b]
                     if c.concrete is not None and P.get('compress'):
-                        pay = [0x41] * 4        # replay: content chosen so that real DEFLATE uses its history
+                        # replay: content chosen so that real DEFLATE uses its history (a different letter per thread)
+                        pay = [0x40 + int(name[1:])] * 4
                     ws.send_text(mk_str(pay) if c.concrete is None else bytes(pay).decode('ascii'))
                     sent[name].append((1, pay))
                 elif op == 'send_binary':
                     pay = [c.byte('%s_b%d' % (name, i))]
                     if c.concrete is not None and P.get('compress'):
-                        pay = [0x41] * 4
+                        pay = [0x40 + int(name[1:])] * 4
                     ws.send_binary(mk_bytes(pay))
                     sent[name].append((2, pay))
                 elif op == 'send_ping':
@@ -342,8 +355,11 @@ def run_sched(c, P):
                         elif op == 'close2':
                             ws.close(1001, b'again')
                         else:
-                            # what the event loop does when the server's Close arrives
-                            list(ws._on_close(Close(1000, 'srv')))
+                            # what the event loop does when the server's Close arrives: the Closing event is handed to
+                            # the application (handler time = a preemption point), then the generator is resumed
+                            g = ws._on_close(Close(1000, 'srv'))
+                            for _ev in g:
+                                sched.point(name, 'closing-event-handler')
                     finally:
                         in_close[name] = False
                 elif op == 'pong':
@@ -422,8 +438,19 @@ def run_sched(c, P):
                     pay = inflater.inflate(pay)
                 except ValueError as e:
                     calls = [(g, s) for g, s, _ in w.notes.get('zlib', {}).get('compress_calls', [])]
-                    c.fail('C11: the peer cannot inflate the messages in wire order: %s (compress order %s)' % (e, calls),
-                           sig='C11: compression order differs from wire order (context takeover)')
+                    wire_tags = []
+                    for g_ in frames:
+                        if g_['rsv1'] and len(g_['payload']) >= 4:
+                            t_ = g_['payload'][2:4]
+                            wire_tags.append(tuple(x if isinstance(x, int) else x.concretize() for x in t_))
+                    if c.concrete is not None:
+                        # replay with the real zlib: the failure itself is what has to reproduce
+                        c.fail('C11: the peer cannot inflate the messages in wire order (real zlib): %s' % e)
+                    if calls != wire_tags:
+                        c.fail('C11: the peer cannot inflate the messages in wire order: %s (compress order %s, wire order %s)'
+                               % (e, calls, wire_tags), sig='C11: compression order differs from wire order (context takeover)')
+                    c.fail('C11: the peer cannot inflate the messages although they were written in the order they were compressed: %s '
+                           '(compress order %s)' % (e, calls), sig='C11: peer cannot inflate; compression order equals wire order')
             # match against the head of some thread's queue
             matched = None
             for n, q in remaining.items():
@@ -445,15 +472,17 @@ def run_sched(c, P):
             # which thread wrote the second Close, and what did it see when it took the write lock for that write?
             who, snap = _writer_of_frame(parts, frames, closes[1])
             c.fail('C12: %d Close frames on the wire (second by %s; when it took the write lock: %s)' % (len(closes), who, snap),
-                   sig='C12: two Close frames; second writer took the lock with closing=%s close_on_wire=%s close_in_progress=%s'
-                       % (snap and snap.get('closing'), snap and snap.get('close_on_wire'), snap and snap.get('close_in_progress')))
+                   sig='C12: two Close frames; second writer took the lock with closing=%s close_on_wire=%s close_in_progress=%s closer_at=%s'
+                       % (snap and snap.get('closing'), snap and snap.get('close_on_wire'), snap and snap.get('close_in_progress'),
+                          snap and snap.get('closer_at')))
         if closes:
             for j in range(closes[0] + 1, len(frames)):
                 if ops_wire[j] in (0, 1, 2):
                     who, snap = _writer_of_frame(parts, frames, j)
                     c.fail('C12: data frame written after the Close frame (by %s; when it took the write lock: %s)' % (who, snap),
-                           sig='C12: data after Close; sender took the lock with closing=%s close_on_wire=%s close_in_progress=%s'
-                               % (snap and snap.get('closing'), snap and snap.get('close_on_wire'), snap and snap.get('close_in_progress')))
+                           sig='C12: data after Close; sender took the lock with closing=%s close_on_wire=%s close_in_progress=%s closer_at=%s'
+                               % (snap and snap.get('closing'), snap and snap.get('close_on_wire'), snap and snap.get('close_in_progress'),
+                                  snap and snap.get('closer_at')))
         for n, res in results.items():
             for op, outcome, wrote in res:
                 if outcome.startswith('exception'):
